@@ -296,7 +296,9 @@ pub fn verif_root() -> PathBuf {
 }
 
 pub fn load_known_findings(property: &str) -> Vec<KnownFinding> {
-    let p = verif_root().join("known_findings.json");
+    let p = std::env::var("VERIF_KNOWN_FINDINGS")
+        .map(PathBuf::from)
+        .unwrap_or_else(|_| verif_root().join("known_findings.json"));
     let Ok(text) = std::fs::read_to_string(&p) else {
         return vec![];
     };
@@ -905,7 +907,7 @@ pub fn main(prop: Property) -> ! {
         let next = AtomicU64::new(0);
         std::thread::scope(|sc| {
             for _ in 0..nthreads {
-                sc.spawn(|| loop {
+                std::thread::Builder::new().stack_size(8 << 20).spawn_scoped(sc, || loop {
                     let shard = next.fetch_add(1, Ordering::SeqCst) as usize;
                     if shard >= NSHARDS {
                         break;
@@ -935,7 +937,7 @@ pub fn main(prop: Property) -> ! {
                         stop.store(true, Ordering::Relaxed);
                     }
                     results.lock().unwrap().push((shard, st, ff));
-                });
+                }).expect("spawn shard thread");
             }
         });
         // clean in-flight files of completed shards
